@@ -102,34 +102,47 @@ fn has(context: &Context, id: WorkId) -> bool {
 }
 
 fn bytes_for(context: &Context, id: WorkId) -> Result<Option<Vec<u8>>, Error> {
+    // a table we have but cannot write is an error; leaving it out would be a broken font
+    fn dump<T>(table: &T, id: &WorkId) -> Result<Option<Vec<u8>>, Error>
+    where
+        T: write_fonts::FontWrite + write_fonts::validate::Validate,
+    {
+        to_bytes(table).map(Some).map_err(|e| Error::DumpTableError {
+            e,
+            context: format!("{id:?}"),
+        })
+    }
     // TODO: to_vec copies :(
     let bytes = match id {
-        WorkId::Avar => context.avar.get().as_ref().as_ref().and_then(to_bytes),
-        WorkId::Cmap => to_bytes(context.cmap.get().as_ref()),
-        WorkId::Colr => to_bytes(context.colr.get().as_ref()),
-        WorkId::Cpal => to_bytes(context.cpal.get().as_ref()),
-        WorkId::Fvar => to_bytes(context.fvar.get().as_ref()),
-        WorkId::Head => to_bytes(context.head.get().as_ref()),
-        WorkId::Hhea => to_bytes(context.hhea.get().as_ref()),
+        WorkId::Avar => match context.avar.get().as_ref().as_ref() {
+            Some(avar) => dump(avar, &id)?,
+            None => None,
+        },
+        WorkId::Cmap => dump(context.cmap.get().as_ref(), &id)?,
+        WorkId::Colr => dump(context.colr.get().as_ref(), &id)?,
+        WorkId::Cpal => dump(context.cpal.get().as_ref(), &id)?,
+        WorkId::Fvar => dump(context.fvar.get().as_ref(), &id)?,
+        WorkId::Head => dump(context.head.get().as_ref(), &id)?,
+        WorkId::Hhea => dump(context.hhea.get().as_ref(), &id)?,
         WorkId::Hmtx => Some(context.hmtx.get().as_ref().get().to_vec()),
-        WorkId::Gasp => to_bytes(context.gasp.get().as_ref()),
+        WorkId::Gasp => dump(context.gasp.get().as_ref(), &id)?,
         WorkId::Glyf => Some(context.glyf.get().as_ref().get().to_vec()),
-        WorkId::Gpos => to_bytes(context.gpos.get().as_ref()),
-        WorkId::Gsub => to_bytes(context.gsub.get().as_ref()),
-        WorkId::Gdef => to_bytes(context.gdef.get().as_ref()),
+        WorkId::Gpos => dump(context.gpos.get().as_ref(), &id)?,
+        WorkId::Gsub => dump(context.gsub.get().as_ref(), &id)?,
+        WorkId::Gdef => dump(context.gdef.get().as_ref(), &id)?,
         WorkId::Gvar => Some(context.gvar.get().as_ref().get().to_vec()),
         WorkId::Loca => Some(context.loca.get().as_ref().get().to_vec()),
-        WorkId::Maxp => to_bytes(context.maxp.get().as_ref()),
-        WorkId::Name => to_bytes(context.name.get().as_ref()),
-        WorkId::Os2 => to_bytes(context.os2.get().as_ref()),
-        WorkId::Post => to_bytes(context.post.get().as_ref()),
-        WorkId::Stat => to_bytes(context.stat.get().as_ref()),
-        WorkId::Hvar => to_bytes(context.hvar.get().as_ref()),
-        WorkId::Mvar => to_bytes(context.mvar.get().as_ref()),
-        WorkId::Meta => to_bytes(context.meta.get().as_ref()),
-        WorkId::Vhea => to_bytes(context.vhea.get().as_ref()),
+        WorkId::Maxp => dump(context.maxp.get().as_ref(), &id)?,
+        WorkId::Name => dump(context.name.get().as_ref(), &id)?,
+        WorkId::Os2 => dump(context.os2.get().as_ref(), &id)?,
+        WorkId::Post => dump(context.post.get().as_ref(), &id)?,
+        WorkId::Stat => dump(context.stat.get().as_ref(), &id)?,
+        WorkId::Hvar => dump(context.hvar.get().as_ref(), &id)?,
+        WorkId::Mvar => dump(context.mvar.get().as_ref(), &id)?,
+        WorkId::Meta => dump(context.meta.get().as_ref(), &id)?,
+        WorkId::Vhea => dump(context.vhea.get().as_ref(), &id)?,
         WorkId::Vmtx => Some(context.vmtx.get().as_ref().get().to_vec()),
-        WorkId::Vvar => to_bytes(context.vvar.get().as_ref()),
+        WorkId::Vvar => dump(context.vvar.get().as_ref(), &id)?,
         _ => panic!("Missing a match for {id:?}"),
     };
     Ok(bytes)
